@@ -172,6 +172,11 @@ func doReplays(prop string, results []*harnessResult, tier string) bool {
 			if v.Kind == "panic" {
 				eo = "panic"
 			}
+			if v.EngineOnly {
+				r.replays = append(r.replays, replayOutcome{kind: "violation", key: v.Msg, path: path, expectOutcome: eo, expectMsg: v.Msg, verdict: "confirmed", engineOnly: true})
+				fmt.Printf("  note: %s: this finding is a property of the execution (not observable by the native harness run); reported from the engine's journal\n", r.spec.Name)
+				continue
+			}
 			if usesFault(v.Draws) {
 				// an injected file-system fault cannot be reproduced against the native build (no
 				// hook in /repo): the counterexample is the engine's own concrete re-execution
